@@ -85,6 +85,13 @@ def spliced_bodies(ctx):
             for e in p.events:
                 if e.kind == 'inline' and e.extra and e.extra.get('body'):
                     out.add(e.extra['body'])
+                if e.kind == 'call' and e.name == 'std::iter::Extend::extend' and len(e.args) == 2:
+                    cl = sem.lazy_sender_drain(p, e.args[1])
+                    if cl is not None:
+                        out.update(cl)  # accounted for by the WL.drain_senders event of the body that builds the pipeline
+                    cq = sem.lazy_queue_drain(p, e.args[1])
+                    if cq is not None:
+                        out.add(cq)
     ctx.facts.__dict__['_spliced'] = out
     return out
 
